@@ -12,14 +12,15 @@ package c16
 //     valid line of the request would be lost with the damaged one);
 //   - every WELL-FORMED line gives exactly the row the model expects (or none when the limits
 //     refuse it), in the order sent - whatever stands before or after it;
-//   - a damaged line gives no row or ONE row, and a row it gives is canonical (non-empty
+//   - a line damaged so that it cannot be a metric any more (see certainlyInvalid) gives NO row;
+//   - any other damaged line gives no row or ONE row, and a row it gives is canonical (non-empty
 //     sanitised name, sorted unique non-empty tags, hashes recomputed from the content, >= 1 valid
 //     field, the request's namespace). What a damaged line "means" is not modelled: a cut may
 //     leave a shorter but complete line.
 //
 // Damage kinds (classes damage=*): cut on / right after a separator character (',' ' ' '='),
 // cut anywhere, blanks appended, a blank / empty / comment line, the field section removed, the
-// timestamp replaced by text, a separator doubled, a field value that is no number (text, quoted
+// timestamp replaced by text, a separator doubled, a field value that is no number, no boolean (text, quoted
 // string, bare integer suffix, two dots), arbitrary bytes. Lines are escape-rich (genEscLine) or
 // plain (short tokens, so that the structural positions right after the measurement / a tag /
 // a field are hit by the cuts).
@@ -116,7 +117,8 @@ func damage(t *rapid.T, l *lpLine) (wire, kind string) {
 	case "field-section-removed":
 		o := *l
 		o.Fields = nil
-		return strings.Replace(o.wire(), "  ", " ", 1), kind
+		head, ts := o.wire(), strconv.FormatInt(tsInUnit(l.TS, l.Unit), 10)
+		return head[:len(head)-len(ts)-1] + ts, kind // "<name>[,tags] <timestamp>"
 	case "timestamp-is-text":
 		return l.body() + " " + rapid.SampledFrom([]string{"now", "12ab", "1.5e3", "-", "0x10", "١٢٣"}).Draw(t, "tsText"), kind
 	case "separator-doubled":
@@ -127,7 +129,7 @@ func damage(t *rapid.T, l *lpLine) (wire, kind string) {
 		o.Fields = nil
 		head, ts := o.wire(), strconv.FormatInt(tsInUnit(l.TS, l.Unit), 10)
 		head = head[:len(head)-len(ts)-2] // "<name>[,tags]": the empty field section left two blanks before the timestamp
-		v := rapid.SampledFrom([]string{"abc", `"str"`, "i", "u", "1.2.3", "--1", "t", "1e", ""}).Draw(t, "badValue")
+		v := rapid.SampledFrom([]string{"abc", `"str"`, "i", "u", "1.2.3", "--1", "1e", "tr", ""}).Draw(t, "badValue")
 		return head + " " + escInflux(l.Fields[0].Key, lpKeySpecials) + "=" + v + " " + ts, kind
 	default:
 		n := rapid.IntRange(1, 24).Draw(t, "junkLen")
@@ -142,6 +144,14 @@ func damage(t *rapid.T, l *lpLine) (wire, kind string) {
 		return string(b), "arbitrary-bytes"
 	}
 }
+
+// certainlyInvalid: damage kinds after which the line cannot be a metric whatever it was before -
+// nothing to store (blank, empty, comment), no field section (the digits of the timestamp are no
+// field), a timestamp that is no integer, an only field whose value is no number (the parser
+// documents that unsupported values such as strings are dropped and that a line whose fields are
+// all dropped is an error). "Invalid metrics are rejected as a whole": such a line gives NO row.
+var certainlyInvalid = map[string]bool{"blank-line": true, "empty-line": true, "comment-line": true,
+	"field-section-removed": true, "timestamp-is-text": true, "field-value-not-a-number": true}
 
 // rowFault says why a row is not a canonical accepted row ("" = it is one).
 func rowFault(c *canon, ns string) string {
@@ -263,6 +273,8 @@ func TestInfluxMalformedLines(t *testing.T) {
 				ok = j < len(rows) && rows[j].String() == l.want.String() && feasible(i+1, j+1)
 			case l.damage == "":
 				ok = feasible(i+1, j)
+			case certainlyInvalid[l.damage]:
+				ok = feasible(i+1, j)
 			default:
 				ok = feasible(i+1, j) || (j < len(rows) && rowFault(rows[j], rc.NS) == "" && feasible(i+1, j+1))
 			}
@@ -273,6 +285,8 @@ func TestInfluxMalformedLines(t *testing.T) {
 			var b strings.Builder
 			for i, l := range lines {
 				switch {
+				case certainlyInvalid[l.damage]:
+					fmt.Fprintf(&b, "  line %d (damaged: %s; cannot be a metric: no row): %q\n", i, l.damage, l.wire)
 				case l.damage != "":
 					fmt.Fprintf(&b, "  line %d (damaged: %s; no row or one canonical row): %q\n", i, l.damage, l.wire)
 				case l.want != nil:
